@@ -348,7 +348,7 @@ class CallMixin:
                 st.heap.store("$dhas", d, z3.K(V, z3.BoolVal(False)))
                 st.heap.store("$olen", d, z3.IntVal(0))
                 for k, v in other.items():
-                    self.dict_set(st, d, smt.const("str:" + k), v)
+                    self.dict_set(st, d, smt.const("str:" + k), v, assume_absent=True)
                 names[kvar[0]] = d
             else:
                 raise Undecided("keywords + ** for %s" % c.name)
@@ -366,6 +366,7 @@ class CallMixin:
     def apply_contract(self, c, pos, kws, st, node, cname, star=None, dstar=None):
         """-> generator of (state, result, exc)"""
         from .symexec import Undecided
+        self.mark_escapes(st, list(pos) + list(kws.values()) + [x for x in (star, dstar) if x is not None])
         names = self.bind_params(c, pos, kws, st, star, dstar)
         short = cname.split(".", 1)[-1] if cname.count(".") else cname
         occ = self.call_ordinals().get(id(node), 0)
@@ -433,6 +434,7 @@ class CallMixin:
                 inv = self.eng.inv(st.heap)
                 self.oblige_all(st, "inv", "callout:" + lab, [(str(i + 1), f) for i, f in enumerate(inv)], ln)
             st.heap = st.heap.havoc_all()
+            self.keep_unescaped(st, old)
             for f_ in self.eng.wf(st.heap):
                 st.assume(f_)
             for f_ in self.eng.two_state(old, st.heap, c.labels.get("ts_skip", ())):
@@ -732,6 +734,7 @@ class CallMixin:
             n = st2.heap.sel("$llen", l)
             items = st2.heap.sel("$litem", l)
             if m == "append":
+                self.mark_escapes(st2, [vs[1]])
                 st2.heap.store("$litem", l, z3.Store(items, n, vs[1]))
                 st2.heap.store("$llen", l, n + 1)
                 yield st2, NONE, None
@@ -764,6 +767,7 @@ class CallMixin:
             s = vs[0]
             mem = st2.heap.sel("$smem", s)
             if m == "add":
+                self.mark_escapes(st2, [vs[1]])
                 st2.heap.store("$smem", s, z3.Store(mem, vs[1], z3.BoolVal(True)))
                 yield st2, NONE, None
             elif m == "remove":
@@ -820,8 +824,8 @@ class CallMixin:
                 a.assume(present)
                 yield a, z3.Select(get, k), None
                 st2.assume(z3.Not(present))
-                self.dict_set(st2, d, k, dflt)
-                yield st2, dflt, None
+                for s_ in self.dict_set(st2, d, k, dflt, assume_absent=True):
+                    yield s_, dflt, None
             elif m == "clear":
                 st2.heap.store("$dhas", d, z3.K(V, z3.BoolVal(False)))
                 st2.heap.store("$olen", d, z3.IntVal(0))
